@@ -188,6 +188,11 @@ def compare_with_model(ctx, case, res, out):
             return 'conversion %d: model error %d, implementation ok' % (j, mo[1])
         if st[0] == 'err':
             return 'conversion %d: model ok, implementation raised %r' % (j, st[1:])
+        if len(mo) > 3:
+            ctx.hist['free_spec_code=%d' % mo[3]] = ctx.hist.get('free_spec_code=%d' % mo[3], 0) + 1
+            if mo[3] == 2:
+                return ('conversion %d: INPUT conversion of the free variable: the model\'s result is not the specification system '
+                        'free_system of theorem C06_input_free_spec_equiv (or its premises fail)' % j)
         if mo[1] != st[1]:
             return 'conversion %d: returned variable index differs: model %d implementation %d' % (j, mo[1], st[1])
         mvars, meqs = cvlib.decode_state(mo[2])
@@ -278,7 +283,9 @@ def run(ctx):
                 'histories of 1-4 conversions: any variable incl. previously created ones, any unit of its family (equivalent '
                 'ones included), both directions, both move_annotations; plus bundled documents; non-trivial = a conversion '
                 'with factor != 1 happened')
-    ctx.trusted += ['conversion factors restricted to rationals with prime factors 2, 3, 5 (exact unit vectors)',
+    ctx.trusted += ['free-variable INPUT conversion: theorem about the specification system free_system; that the model\'s fold produces it '
+                    '(up to order) and that the theorem\'s premises hold is evaluated per case by free_spec_code, not proved',
+                    'conversion factors restricted to rationals with prime factors 2, 3, 5 (exact unit vectors)',
                     'SymPy builds / re-evaluates products: right-hand sides compared semantically (values + referenced atoms)']
     cases = load_corpus() + [gen_case(ctx.seed * 100000 + i) for i in range(n)]
     results = vlib.pmap(run_case, cases)
